@@ -25,7 +25,7 @@ REQUIRED_THEOREMS = [
     "rk4_quadrature", "rkf45_rowsum", "rkf45_order4", "rkf45_order5", "rkf45_error_is_difference",
     "rkf45_amp4", "fixedStepper_steps", "fixedStepper_is_iterate",
     "adaptive_ends_at_or_after_tend", "adaptive_overshoot_lt_dtmin", "adaptive_exact_end_partial",
-    "adaptive_end_exact_or_floor", "eulerAdaptive_carried_rate_taken_at_old_time",
+    "adaptive_end_exact_or_floor", "eulerAdaptive_carried_rate_taken_at_new_time",
     "implicitStep_converged_close", "implicitStep_converged_distance", "cnStep_converged_close",
     "implicitStep_terminates", "cnStep_terminates",
     "global_error_le_sum_local", "euler_local_error_le_estimate",
